@@ -22,6 +22,8 @@ def replay_file(prop, path):
         b, seed = p["behaviour"], 1
         if kind == "acnsim":
             d = pa._work_spec((b, p["variation"], seed))
+        elif kind == "acnsim_step":
+            d = pa._work_step((b, p["variation"], seed))
         elif kind == "acnsim_twin":
             d = pa._work_twin((b, p["variation"], seed))
         elif kind == "acnsim_twostage":
